@@ -56,7 +56,19 @@ def run(ctx):
     if hbin:
         res = ctx.correspondence("records", hbin, ["records"], drv, ["records"])
         judge_all(ctx, res, "Poly.Props.C04.* (a record schema of Poly/Model/SchemaRecords.lean no longer matches its Go type)")
-        import json, os
-        st = os.path.join(ctx.tmpdir, "records.stats")
-        ctx.cov["types_covered"] = 50
+        import os
+        import re
+        inv = os.path.join(os.path.dirname(os.path.dirname(os.path.abspath(__file__))), "lean", "Poly", "Generated", "CodecInventory.lean")
+        try:
+            sec = open(inv).read().split("def c04", 1)[1].split("]", 1)[0]
+            names = re.findall(r'\("([A-Za-z0-9_]+)", "([^"]+)"\)', sec)
+        except Exception:
+            names = []
+        ctx.cov["types_in_anchored_files"] = [n for n, _ in names]
+        ctx.cov["types_with_schema_and_differential_tie"] = [n for n, _ in names]   # proved: Poly.Props.C04.inventory_covered
+        ctx.cov["types_unmodelled"] = []
+        ctx.cov["types_partially_modelled"] = {
+            "SideChain": "post-fork format only (ExtraInfo always written); not strict (known finding)",
+            "RegisterSideChainParam": "post-fork format only; not strict (known finding)",
+            "PeerPoolMap": "schema is the item list; the map semantics (key = item.PeerPubkey, last wins, descending order) is the post-processing peerPoolPost"}
     judge_lean_all(ctx)
